@@ -167,6 +167,9 @@ class Snap:
         # nodes included, with t, which lists vertices only); so it is demanded of the child only when
         # the parent passes it.
         self.lib_valid = bool(mesh.is_valid())
+        used = np.zeros(nv, dtype=bool)
+        used[self.t.ravel()] = True
+        self.all_used = bool(used.all())
 
 
 def facet_dict(t):
@@ -220,7 +223,13 @@ def check_step(ctx, par: Snap, child, marked, records, desc, step=0, light=False
         return None
     used = np.zeros(nvc, dtype=bool)
     used[tc.ravel()] = True
-    ctx.check("valid-mesh", used.all(), mech=mech("unused-vertex"), case=desc, unused=lambda: np.nonzero(~used)[0][:8])
+    if par.all_used:
+        ctx.check("valid-mesh", used.all(), mech=mech("unused-vertex"), case=desc,
+                  unused=lambda: np.nonzero(~used)[0][:8])
+    else:
+        # PITFALL: Mesh.load of a mixed file (docs/examples/meshes/mixedtriquad.msh) yields a MeshTri1 that
+        # keeps the quadrilaterals' vertices: the parent already has unused vertices, the child inherits them.
+        ctx.drop("parent-has-unused-vertices")
     if par.lib_valid:
         ctx.check("valid-mesh", bool(child.is_valid()), mech=mech("is_valid-false"), case=desc)
 
@@ -586,6 +595,10 @@ def tiny_tri(rng, i):
     if i == 8:   # graded strip: cell sizes 2^-k
         x = np.concatenate([[0.], np.cumsum(2.0 ** -np.arange(4))])
         return M.init_tensor(x, np.array([0., 1.])), "graded-strip-8"
+    if i == 9:   # zigzag strip: every triangle has TWO equal longest edges, shared with its neighbours
+        p = np.array([[0.5 * j for j in range(8)], [float(j % 2) for j in range(8)]])
+        t = np.array([[j, j + 1, j + 2] for j in range(6)]).T
+        return M(p, t), "zigzag-ties-6"
     # seeded random Delaunay with <= 8 cells
     for _ in range(50):
         p, t, desc = G.tri_mesh(rng, n=int(rng.integers(4, 8)), style=str(rng.choice(["random", "anisotropic", "jitter"])),
@@ -658,8 +671,8 @@ def tiny_line(rng, i):
     return ML(np.linspace(0, 1, 5)), "uniform-4"
 
 
-TINY = {"tri": (tiny_tri, 9), "tet": (tiny_tet, 6), "line": (tiny_line, 5)}
-NRANDOM_TINY = {"tri": 4, "tet": 3, "line": 4}      # totals 13 / 9 / 9: coprime to the 16 shards
+TINY = {"tri": (tiny_tri, 10), "tet": (tiny_tet, 6), "line": (tiny_line, 5)}
+NRANDOM_TINY = {"tri": 3, "tet": 3, "line": 4}      # totals 13 / 9 / 9: coprime to the 16 shards
 
 
 def renumbered(rng, mesh, kind):
@@ -772,7 +785,15 @@ def random_case(kind):
     def run(ctx, k):
         rng = ctx.rng()
         mc = random_mesh(rng, kind, ctx)
-        mesh = with_tags(rng, mc.mesh, sub=(k % 5 != 4), bnd=(k % 3 != 2))
+        mesh = mc.mesh
+        if k % 4 == 1:
+            # dyadic scaling / integer translation (exact mode still applies): absolute thresholds and the
+            # 1e-10 noise of the tetrahedral edge sorting meet cells of size 2^-8 h and offsets of 2^5
+            e = int(rng.choice([-8, -3, 4]))
+            shift = rng.integers(-32, 33, size=(mesh.p.shape[0], 1)).astype(float) if e < 0 else 0.0
+            mesh = type(mesh)(np.asarray(mesh.p) * 2.0 ** e + shift, np.asarray(mesh.t).astype(np.int64))
+            mc.desc = dict(mc.desc, scaled_by=f"2^{e}", shifted=bool(e < 0))
+        mesh = with_tags(rng, mesh, sub=(k % 5 != 4), bnd=(k % 3 != 2))
         nt = mesh.t.shape[1]
         marked = pick_marked(rng, nt)
         form, fname = marked_variant(rng, marked)
@@ -1027,9 +1048,9 @@ def theta_case(ctx, k):
 
 
 FAMILIES = [
-    Family("exh-tri", exhaustive_case("tri"), quick=12, thorough=192, exhaustive=True,
+    Family("exh-tri", exhaustive_case("tri"), quick=13, thorough=195, exhaustive=True,
            budget={"quick": 40, "thorough": 500}),
-    Family("exh-tet", exhaustive_case("tet"), quick=9, thorough=144, exhaustive=True,
+    Family("exh-tet", exhaustive_case("tet"), quick=9, thorough=108, exhaustive=True,
            budget={"quick": 40, "thorough": 500}),
     Family("exh-line", exhaustive_case("line"), quick=8, thorough=96, exhaustive=True,
            budget={"quick": 20, "thorough": 300}),
